@@ -12,7 +12,7 @@ from typing import Any, Callable, Dict, List, Optional
 
 from crosshair.core import deep_realize, proxy_for_type
 from crosshair.tracers import NoTracing, ResumedTracing, is_tracing
-from crosshair.util import NotDeterministic
+from crosshair.util import IgnoreAttempt, NotDeterministic
 
 # ---------------------------------------------------------------------------------------------
 # Worker-controlled globals
@@ -66,6 +66,22 @@ def fresh_int(label: str = "v") -> int:
         with ResumedTracing():
             return fresh_int(label)
     v = proxy_for_type(int, "%s%d" % (label, len(_CHOICES)))
+    _CHOICES.append((label, v))
+    return v
+
+
+def assume(cond: Any) -> None:
+    """Restrict the current path to inputs satisfying cond (an inline precondition)."""
+    if not cond:
+        raise IgnoreAttempt("assumption")
+
+
+def fresh(typ: Any, label: str = "x") -> Any:
+    """A fresh unconstrained symbolic value of a type, recorded with the case."""
+    if not is_tracing():
+        with ResumedTracing():
+            return fresh(typ, label)
+    v = proxy_for_type(typ, "%s%d" % (label, len(_CHOICES)))
     _CHOICES.append((label, v))
     return v
 
